@@ -133,4 +133,31 @@ example : (Factor.mk [3, 1] [2, 3] #[1, 2, 3, 4, 5, 6]).WF (fun v => if v = 3 th
   intro v
   by_cases h : v = 3 <;> simp [h]
 
+
+/-- a scalar as a factor over no variables (how `phi * k`, `phi + k` are modelled) -/
+def Factor.scalar (k : Rat) : Factor := { scope := [], card := [], vals := #[k] }
+
+theorem scalar_wf (K : Var → Nat) (k : Rat) : (Factor.scalar k).WF K := by
+  refine ⟨List.nodup_nil, rfl, ?_⟩
+  simp [Factor.scalar]
+
+theorem scalar_den (k : Rat) (a : Asg) : (Factor.scalar k).den a = k := by
+  simp [Factor.scalar, Factor.den, ravel]
+
+/-- multiplying by the scalar k scales every entry, adding it shifts every entry, and neither changes the scope;
+    in particular 1 and 0 are neutral: `phi * 1` and `phi + 0` denote `phi` -/
+theorem C04_scalar_ops (K : Var → Nat) (f : Factor) (hf : f.WF K) (k : Rat) (a : Asg) (ha : Bounded K a) :
+    (product f (Factor.scalar k)).den a = f.den a * k ∧
+    (add f (Factor.scalar k)).den a = f.den a + k ∧
+    (∀ v, v ∈ (product f (Factor.scalar k)).scope ↔ v ∈ f.scope) := by
+  have h := C04_den_product K f (Factor.scalar k) hf (scalar_wf K k) a ha
+  refine ⟨by rw [h.1, scalar_den], ?_, fun v => ?_⟩
+  · rw [C04_den_add K f (Factor.scalar k) hf (scalar_wf K k) a ha, scalar_den]
+  · rw [h.2 v]; simp [Factor.scalar]
+
+theorem C04_scalar_neutral (K : Var → Nat) (f : Factor) (hf : f.WF K) (a : Asg) (ha : Bounded K a) :
+    (product f (Factor.scalar 1)).den a = f.den a ∧ (add f (Factor.scalar 0)).den a = f.den a := by
+  have h := C04_scalar_ops K f hf
+  exact ⟨by rw [(h 1 a ha).1, Rat.mul_one], by rw [(h 0 a ha).2.1, Rat.add_zero]⟩
+
 end PgmVerif
